@@ -523,6 +523,17 @@ class Analysis:
                 return None
             if e.op == "<<" and a is not None and b is not None and b.is_const() and 0 <= b.k < 62:
                 return a.scale(2 ** int(b.k))
+            if e.op == "&" and a is not None and b is not None and b.is_const() and b.k.denominator == 1 and self._is_unsigned(e.kid(0).ty):
+                # x & ~(2^k - 1), the round-down-to-a-multiple idiom: 2^k * q with q the quotient of x by 2^k
+                m = int(b.k) % (1 << 64)
+                low = (1 << 64) - m
+                if m and low & (low - 1) == 0 and low < (1 << 32) and (self._ty(e.ty).get("size") or 8) == 8:
+                    n = ("&~", self.nm(e.kid(0)), ("c", low))
+                    if _pure(n):
+                        q = Lin.var(n)
+                        self.unsigned.add(n)
+                        self.defs[n] = cons("<=", q.scale(low), a) + cons("<=", a, q.scale(low) + (low - 1))
+                        return q.scale(low)
             if e.op in ("/", ">>") and a is not None and b is not None and b.is_const() and b.k.denominator == 1:
                 # floor division of a non-negative value by a positive constant: a quotient variable q with k*q <= a <= k*q + k - 1
                 k = int(b.k) if e.op == "/" else (2 ** int(b.k) if 0 <= b.k < 62 else 0)
